@@ -288,6 +288,12 @@ pub fn run(ctx: &Ctx, rep: &mut Report) {
         let s: String = (0..len).map(|_| ALPHA[r.usize(18)]).collect();
         check(site, &s, &format!("random:{}", i), rep);
     });
+    // strings a "helpful" normalisation would change (trim, ./, trailing /, case, duplicate /)
+    let norm = ["./x", "x/", " x", "x ", "X", "x/../y", "a//b", "./", "/", "~", "~/x", "e\u{301}", "\u{e9}", ".", "..", "x.", "-x", "+x", "x\ty", "%2f", "&amp;", "x;", "$HOME", "`x`", "a b"];
+    par_cases(ctx, "norm", (norm.len() * SITES.len()) as u64, rep, |i, rep| {
+        let site = SITES[(i as usize) % SITES.len()];
+        check(site, norm[(i as usize) / SITES.len()], &format!("norm:{}", i), rep);
+    });
     // the k of %Ak / %Ck / %Tk
     par_cases(ctx, "strftime", 18 * 3, rep, |i, rep| {
         let k = ALPHA[(i % 18) as usize];
